@@ -14,7 +14,49 @@ fn do_lift(ctx: &mut Ctx, c: &[BigInt], factors: &[Vec<BigInt>], p: &BigInt, e: 
     ctx.emit("pm.lift", &[show_pz(&pc), show_polys(&fs), p.to_string(), e.to_string()], ans);
 }
 
+/// `pm.hlift p q c a b u v` ⇒ `a1|b1|qr`: the single Hensel step (`hensel::hensel_lift`, reached through
+/// `poly_mod::verif`) — the function the theorem `henselLift_full` is about
+fn do_hlift(ctx: &mut Ctx, p: &BigInt, q: &BigInt, c: &[BigInt], a: &[BigInt], b: &[BigInt], u: &[BigInt], v: &[BigInt]) {
+    let (pc, pa, pb, pu, pv) = (pz(c), pz(a), pz(b), pz(u), pz(v));
+    let ans = run(|| {
+        let (a1, b1, qr) = rust_number_theory::poly_mod::verif::hensel_lift::<BigInt>(p, q, &pc, &pa, &pb, &pu, &pv);
+        format!("{}|{}|{}", show_pz(&a1), show_pz(&b1), qr)
+    });
+    ctx.emit(
+        "pm.hlift",
+        &[p.to_string(), q.to_string(), show_pz(&pc), show_pz(&pa), show_pz(&pb), show_pz(&pu), show_pz(&pv)],
+        ans,
+    );
+}
+/// inputs satisfying the preconditions of Cohen 3.5.5: a, b monic coprime mod p, (u, v) from
+/// poly_coprime_witness, q = p^k, c = a*b + q*noise
+fn gen_hlift(ctx: &mut Ctx, n: usize) {
+    use rust_number_theory::poly_mod::poly_coprime_witness;
+    for _ in 0..n {
+        let p = BigInt::from([2u64, 3, 5, 7, 13, 101, 2305843009213693951][ctx.rng.below(7) as usize]);
+        let da = 1 + ctx.rng.below(4) as usize;
+        let db = 1 + ctx.rng.below(4) as usize;
+        let a = crate::pm::rand_monic_p(ctx, da, &p);
+        let b = crate::pm::rand_monic_p(ctx, db, &p);
+        let (pa, pb) = (pz(&a), pz(&b));
+        let w = std::panic::catch_unwind(std::panic::AssertUnwindSafe(|| poly_coprime_witness::<BigInt>(&pa, &pb, &p)));
+        let Ok((u, v)) = w else { continue };
+        let k = 1 + ctx.rng.below(5) as u32;
+        let q = num::pow(p.clone(), k as usize);
+        let ab = (&pa * &pb).dat;
+        let mut c = ab.clone();
+        for x in c.iter_mut() {
+            *x += &q * ctx.rng.small(5);
+        }
+        do_hlift(ctx, &p, &q, &c, &a, &b, &u.dat, &v.dat);
+    }
+}
+
 pub fn replay(ctx: &mut Ctx, f: &[&str]) -> bool {
+    if f[0] == "pm.hlift" && f.len() == 8 {
+        do_hlift(ctx, &parse_int(f[1]), &parse_int(f[2]), &parse_ints(f[3]), &parse_ints(f[4]), &parse_ints(f[5]), &parse_ints(f[6]), &parse_ints(f[7]));
+        return true;
+    }
     match (f[0], f.len()) {
         ("pm.lift", 5) => {
             let fs = parse_mat(f[2]);
@@ -61,6 +103,8 @@ const PRIMS: [&str; 8] = [
 ];
 
 pub fn generate(ctx: &mut Ctx) {
+    let nh = ctx.pick(600, 8000);
+    gen_hlift(ctx, nh);
     generate_prims(ctx, &PRIMS, ctx.pick(300, 3000));
     let mut primes: Vec<BigInt> = [2u64, 3, 5, 7, 13, 101, M61].iter().map(|&p| BigInt::from(p)).collect();
     primes.push(big_primes()[0].clone()); // 2^64 + 13
